@@ -98,14 +98,16 @@ class Path(PathRun, ExprMixin, CallMixin, BuiltinMixin, StmtMixin):
         if f.name.startswith('dynmeth!'):
             nm = f.name.split('!', 1)[1]
             mr = getattr(self.d.contract, 'method_results', None) or {}
+            kws = sorted(kw.items())       # keyword arguments are arguments: they take part in the identity of the result
             if nm in mr:
-                key = ('method-result', nm, str(f.self_.t), tuple(str(self.to_val(a)) for a in args))
+                key = ('method-result', nm, str(f.self_.t), tuple(str(self.to_val(a)) for a in args), tuple((k, str(self.to_val(v))) for k, v in kws))
                 if key not in self.gcache:
                     self.gcache[key] = self.sym_cases_fixed(mr[nm], self.fresh('mres.' + nm))
                 return self.gcache[key]
             self.d.used_builtins.add('opaque-method:' + nm)
-            g = uf(f'meth_{nm}_{len(args)}', *([Val] * (len(args) + 1)), Val)
-            return SDyn(g(f.self_.t, *[self.to_val(a) for a in args]))
+            gname = f'meth_{nm}_{len(args)}' + ''.join('_' + k for k, _ in kws)
+            g = uf(gname, *([Val] * (len(args) + len(kws) + 1)), Val)
+            return SDyn(g(f.self_.t, *[self.to_val(a) for a in args], *[self.to_val(v) for _, v in kws]))
         return BuiltinMixin.call_builtin(self, fr, f, args, kw, node)
 
 
